@@ -100,7 +100,11 @@ def run(repo, tier):
     if f is None:
         raise AnalysisError("stablehlo.Printer.tostring vanished")
     # R6.2 operand loops
-    loops = [n for n in ast.walk(f) if isinstance(n, ast.For) and isinstance(n.target, ast.Name) and n.target.id == "operand"]
+    def _prints_target(lp):
+        return isinstance(lp.target, ast.Name) and any((call_name(c) or "").endswith("tostring") and c.args and dotted(c.args[0]) == lp.target.id for c in calls_in(lp))
+
+    # loops over operands: every loop whose body prints its loop variable (the apply branch iterates printed lines, not nodes)
+    loops = [n for n in ast.walk(f) if isinstance(n, ast.For) and _prints_target(n)]
     if len(loops) < 2:
         raise AnalysisError(f"stablehlo.Printer.tostring: expected two operand loops, found {len(loops)}")
     for lp in loops:
@@ -109,7 +113,7 @@ def run(repo, tier):
              ok, f"operands are printed from `{norm_src(lp.iter)}`, not from expr.operands in order", loc(S.rel, lp))
         # the loop body prints the loop variable
         printed = [c for c in calls_in(lp) if (call_name(c) or "").endswith("tostring") and c.args]
-        ok2 = bool(printed) and all(dotted(c.args[0]) == "operand" for c in printed)
+        ok2 = bool(printed) and all(dotted(c.args[0]) == lp.target.id for c in printed)
         r.ob("R6.2", "targets/stablehlo.py::Printer.tostring loop prints its operand", ok2, "the loop body does not print the loop variable", loc(S.rel, lp))
     # comparison branch
     cmp_tests = [
@@ -166,24 +170,37 @@ def run(repo, tier):
         tests = [(e.node, e.pol) for e in p.events if e.kind == "test"]
         if not any(pol and norm_src(t) == "expr.kind == 'apply'" for t, pol in tests):
             continue
-        i_add = next((i for i, e in enumerate(p.events) if e.kind == "stmt" and _adds(e.node, "a")), None)
+        i_add = next((i for i, e in enumerate(p.events) if e.kind == "stmt" and _adds_other(e.node, "expr")), None)
         i_body = next((i for i, e in enumerate(p.events) if e.kind in ("stmt", "iter") and any((call_name(c) or "").endswith("tostring") for c in calls_in(e.node))), None)
         ok = i_add is not None and i_body is not None and i_add < i_body
         r.ob("R6.3", "targets/stablehlo.py::Printer.tostring arguments bound before body", ok, "function body printed before argument $refs are bound", loc(S.rel, f))
         break
     # R6.4 like operand of a constant: the short `$like.ref` form only under `like.ref in self.defined_refs`
     n_like = 0
+    # the like operand is the second component of the constant's operands
+    like_names = set()
+    for st in ast.walk(f):
+        if isinstance(st, ast.Assign) and isinstance(st.targets[0], ast.Tuple) and len(st.targets[0].elts) == 2 and norm_src(st.value) == "expr.operands" \
+                and isinstance(st.targets[0].elts[1], ast.Name):
+            like_names.add(st.targets[0].elts[1].id)
+    if len(like_names) != 1:
+        raise AnalysisError(f"stablehlo.Printer.tostring: `value, like = expr.operands` not found ({sorted(like_names)})")
+    like = next(iter(like_names))
     for p in enumerate_paths(f, unroll=(0, 1)):
         for i, e in enumerate(p.events):
-            if e.kind == "stmt" and isinstance(e.node, ast.Assign) and dotted(e.node.targets[0]) == "like_val":
-                n_like += 1
+            if e.kind == "stmt" and isinstance(e.node, ast.Assign) and isinstance(e.node.targets[0], ast.Name):
                 v = e.node.value
+                short = isinstance(v, ast.JoinedStr) and any(isinstance(x, ast.Attribute) and x.attr == "ref" and dotted(x.value) == like for x in ast.walk(v)) \
+                    and not any(isinstance(x, ast.Name) and x.id not in (like,) for x in ast.walk(v))
+                full = isinstance(v, ast.Call) and (call_name(v) or "").endswith("tostring") and len(v.args) >= 1 and dotted(v.args[0]) == like
+                if not (short or full):
+                    continue
+                n_like += 1
                 guard = None
                 for e2 in p.events[:i]:
-                    if e2.kind == "test" and norm_src(e2.node) == "like.ref in self.defined_refs":
+                    if e2.kind == "test" and isinstance(e2.node, ast.Compare) and isinstance(e2.node.ops[0], ast.In) and dotted(e2.node.left) == f"{like}.ref" \
+                            and (dotted(e2.node.comparators[0]) or "").endswith("defined_refs"):
                         guard = e2.pol
-                short = isinstance(v, ast.JoinedStr) and "like.ref" in norm_src(v)
-                full = isinstance(v, ast.Call) and (call_name(v) or "").endswith("tostring") and v.args and dotted(v.args[0]) == "like"
                 if short:
                     ok = guard is True
                     why = ("the like operand is printed as the bare `$like.ref` on a path that does not establish `like.ref in "
@@ -197,7 +214,7 @@ def run(repo, tier):
                 r.ob("R6.4", "targets/stablehlo.py::Printer.tostring like operand " + ("short form" if short else "sub-tree" if full else "other"),
                      ok, why, loc(S.rel, e.node))
     if n_like == 0:
-        raise AnalysisError("stablehlo.Printer.tostring: assignment of like_val not found")
+        raise AnalysisError("stablehlo.Printer.tostring: no statement printing the like operand found")
     # normalize(): the like operand given to a bare Python number must come from the operation's own operands
     nz = repo.func("expr.py", "normalize")
     for p in enumerate_paths(nz, unroll=(0, 1)):
@@ -225,6 +242,15 @@ def run(repo, tier):
     r.ob("R6.5", "expr.py::make_symbol mutable default", not bad,
          f"make_symbol keeps a counter in a mutable default argument {bad}: generated symbol names (printed as like operands) depend on process history", loc("expr.py", ms))
     return r
+
+
+def _adds_other(st, var):
+    """defined_refs.add(<name>.ref) for a name other than `var` (the loop variable over the arguments, whatever it is called)."""
+    for c in calls_in(st):
+        if isinstance(c.func, ast.Attribute) and c.func.attr == "add" and (dotted(c.func.value) or "").endswith(".defined_refs"):
+            if c.args and isinstance(c.args[0], ast.Attribute) and c.args[0].attr == "ref" and isinstance(c.args[0].value, ast.Name) and c.args[0].value.id != var:
+                return True
+    return False
 
 
 def _adds(st, var):
